@@ -35,7 +35,7 @@ def setup_worker():
 def cases(tier):
     main = c01.vector_case(FORMATS, tier, max_sources=4 if tier == "quick" else 8, lib_always=True, lib_prob=0.85, p_grad=0.35,
                            tolerances=TOLS, allow_groups=True)
-    return st.one_of(main, main, main, main, c01.grid_case(FORMATS, tier, tolerances=[0.1, 0.5, 0.01]), c01.far_reuse_case(FORMATS, tier), c01.paint_variants_case(FORMATS, tier), c01.overlay_case(FORMATS, tier), c01.prefix_pair_case(FORMATS, tier), c01.sandwich_case(FORMATS, tier, tolerances=TOLS))
+    return st.one_of(main, main, main, c01.grid_case(FORMATS, tier, tolerances=[0.1, 0.5, 0.01]), c01.grid_case(FORMATS, tier, tolerances=[0.1, 0.1, 0.5]), c01.far_reuse_case(FORMATS, tier), c01.paint_variants_case(FORMATS, tier), c01.overlay_case(FORMATS, tier), c01.prefix_pair_case(FORMATS, tier), c01.sandwich_case(FORMATS, tier, tolerances=TOLS))
 
 
 shrink = c01.shrink
